@@ -43,6 +43,13 @@ EXPRS = [
     (["\"s\""], "\"s\""), (["'c'"], "'c'"), (["1.5"], "1.5"), (["-", "1"], "-1"), (["nullptr"], "nullptr"),
     (["a", "[", "2", "]"], "a[2]"), (["x", "->", "y"], "x->y"), (["1", "<<", "3"], "1 << 3"),
     (["std", "::", "numeric_limits", "<", "int", ">", "::", "max", "(", ")"], "std::numeric_limits<int>::max()"),
+    # several less-than operators inside one bracket group (the bracket matcher's `<` heuristic pops back to the opener)
+    (["{", "a", "<", "1", "&&", "b", "<", "2", "}"], "{a < 1 && b < 2}"),
+    (["(", "a", "<", "1", "||", "b", "<", "2", "||", "c", "<", "3", ")"], "(a < 1 || b < 2 || c < 3)"),
+    (["f", "(", "a", "<", "b", ",", "c", "<", "d", ")"], "f(a < b, c < d)"),
+    (["{", "(", "a", "<", "b", ")", "&&", "c", "<", "d", ",", "e", "<", "f", "}"], "{(a < b) && c < d, e < f}"),
+    (["g", "[", "a", "<", "b", "?", "c", "<", "d", ":", "0", "]"], "g[a < b ? c < d : 0]"),
+    (["h", "(", "k", "(", "a", "<", "b", ")", ",", "c", "<", "d", ")"], "h(k(a < b), c < d)"),
 ]
 
 DECORATIONS = ["[[nodiscard]]", "[[gnu::unused]] ", "static_assert(sizeof(int) == 4, \"m\");", ";",
